@@ -215,4 +215,58 @@ OutsC16 == {OkOut, Out("exc", T, None), Out("res", T, None)}
 ConfigsC16 ==
     { [Base EXCEPT !.maxAtt = 4, !.rc = TRUE, !.handler = ha, !.bsleep = bs, !.abort = ab] :
         ha \in BOOLEAN, bs \in BOOLEAN, ab \in BOOLEAN }
+
+\* ---- thorough tier: larger constants ------------------------------------------------
+ConfigsC01T ==
+    { [Base EXCEPT !.maxAtt = ma, !.rc = TRUE, !.maxUnk = mu,
+                   !.lim = [NoLim EXCEPT !["TRANSIENT"] = la, !["RATE_LIMIT"] = lb, !["UNKNOWN"] = lu]] :
+        ma \in 0..5, la \in {None, 0, 1, 2, 3}, lb \in {None, 1}, mu \in {None, 0, 1, 2}, lu \in {None, 1, 3} }
+ConfigsC02T == { [Base EXCEPT !.maxAtt = 5, !.D = d] : d \in {0, 1, 2, 3, 4, 6, 8, 12} }
+ConfigsC03T ==
+    { [Base EXCEPT !.maxAtt = ma, !.rc = TRUE, !.maxUnk = mu, !.D = d,
+                   !.lim = [NoLim EXCEPT ![T] = lt],
+                   !.hasDefault = st[1], !.strat = st[2],
+                   !.budget = bu, !.handler = ha, !.abort = ab] :
+        ma \in 1..4, lt \in {None, 1, 2}, mu \in {None, 1}, d \in {2, 3, Inf},
+        st \in StratTables \cup {<<FALSE, {}>>}, bu \in {None, 0, 1, 2}, ha \in BOOLEAN, ab \in BOOLEAN }
+ConfigsC04T ==
+    { [Base EXCEPT !.maxAtt = ma, !.rc = TRUE, !.maxUnk = 1, !.D = d,
+                   !.lim = [NoLim EXCEPT ![T] = 1],
+                   !.hasDefault = FALSE, !.strat = {T, U, P},
+                   !.budget = bu, !.handler = ha, !.abort = ab] :
+        ma \in {3, 4}, d \in {3, Inf}, bu \in {None, 1}, ha \in BOOLEAN, ab \in BOOLEAN }
+ConfigsC11T == ConfigsC04T
+ConfigsC05T ==
+    { [Base EXCEPT !.maxAtt = 4, !.rc = TRUE, !.D = d, !.hasDefault = tb[1], !.strat = tb[2],
+                   !.legacy = tb[3], !.handler = ha, !.bsleep = ha] :
+        tb \in TablesC05, ha \in BOOLEAN, d \in {10} }
+ConfigsC10T ==
+    { [Base EXCEPT !.maxAtt = ma, !.rc = TRUE, !.budget = bu, !.bW = w] :
+        ma \in {2, 3}, bu \in {0, 1, 2, 3}, w \in {2, 3, 5} }
+ConfigsC13T ==
+    { [Base EXCEPT !.maxAtt = ma, !.rc = TRUE, !.abort = ab, !.handler = ha, !.bsleep = bs, !.D = d] :
+        ma \in {3, 4}, ab \in BOOLEAN, ha \in BOOLEAN, bs \in BOOLEAN, d \in {4, Inf} }
+ConfigsC14T ==
+    { [Base EXCEPT !.maxAtt = ma, !.rc = TRUE, !.maxUnk = 1, !.D = d,
+                   !.lim = [NoLim EXCEPT ![T] = 1],
+                   !.hasDefault = hd, !.strat = {T, U, P},
+                   !.budget = bu, !.handler = TRUE, !.abort = ab, !.opname = op] :
+        ma \in {3, 4}, hd \in BOOLEAN, d \in {2, Inf}, bu \in {None, 1}, ab \in BOOLEAN, op \in BOOLEAN }
+ConfigsC16T ==
+    { [Base EXCEPT !.maxAtt = ma, !.rc = TRUE, !.handler = ha, !.bsleep = bs, !.abort = ab, !.D = d] :
+        ma \in {4, 5}, ha \in BOOLEAN, bs \in BOOLEAN, ab \in BOOLEAN, d \in {5, Inf} }
+
+\* ---- the full product, explored by random simulation -------------------------------------
+OutsFull == {OkOut} \cup FailOuts({"exc", "res"}, {T, R, U, P}, {None, 2})
+            \cup {Out("abort", "-", None), Out("kbd", "-", None), Out("cancel", "-", None),
+                  Out("nested", "-", None), Out("excsame", T, None)}
+AdvsFull == {"exact", "over1", "over4", "none", "kbd", "cancel"}
+ConfigsFull ==
+    { [Base EXCEPT !.maxAtt = ma, !.rc = TRUE, !.maxUnk = mu, !.D = d,
+                   !.lim = [NoLim EXCEPT ![T] = lt],
+                   !.hasDefault = st[1], !.strat = st[2], !.legacy = st[3],
+                   !.budget = bu, !.bW = 3, !.handler = ha, !.bsleep = bs, !.abort = ab, !.opname = op] :
+        ma \in {2, 3, 4}, lt \in {None, 1}, mu \in {None, 1}, d \in {3, 6, Inf},
+        st \in {<<TRUE, {}, {}>>, <<TRUE, {T}, {"default"}>>, <<FALSE, {T, U, P}, {U}>>},
+        bu \in {None, 1, 2}, ha \in BOOLEAN, bs \in BOOLEAN, ab \in BOOLEAN, op \in BOOLEAN }
 =============================================================================
